@@ -216,7 +216,6 @@ def sabotage(rng, world, top):
 
 def gen_case(rng):
     world = setupsim.gen_world(rng, nprod=rng.choice([3, 4, 5, 5]))
-    world["generic"] = []           # one flavor (see ctx.assumptions): no product declared under the fall-back flavor
     names = sorted(world["products"])
     # the top product: prefer one that has setup lines
     cands = [(n, v) for n in names for v in sorted(world["products"][n])
@@ -260,6 +259,12 @@ def gen_case(rng):
     return {"world": world, "top": top, "topv": topv, "plist": plist, "force": force, "evolve": ops}
 
 
+def gen_generic(rng, prods):
+    """the products of a directed family that are declared under the fall-back flavor generic (all their versions):
+    none in two worlds out of three, else each with probability 1/2 - chains of such products included"""
+    return sorted(n for n in prods if rng.random() < 0.5) if rng.random() < 0.35 else []
+
+
 def gen_shared_case(rng):
     """directed family: an optional dependency that is declared but cannot be set up, listed BEFORE a required sibling
     with which it shares a dependency that has dependencies of its own.
@@ -285,7 +290,7 @@ def gen_shared_case(rng):
         other = rng.choice([v for v in setupsim.VERSIONS if v != v1])
         prods["p1"][other] = [P]
     world = {"root": "stack", "products": prods,
-             "current": {"p1": v1, "p2": v2, "p3": v3, "p4": v4, "p5": v5}}
+             "current": {"p1": v1, "p2": v2, "p3": v3, "p4": v4, "p5": v5}, "generic": gen_generic(rng, prods)}
     ops = []
     for n in sorted(prods):
         r = rng.random()
@@ -359,7 +364,7 @@ def gen_failed_optional_case(rng):
     if rng.random() < 0.3:                              # another version of p3 that could be set up, not current
         other = rng.choice([u for u in setupsim.VERSIONS if u != v["p3"]])
         prods["p3"][other] = [P]
-    world = {"root": "stack", "products": prods, "current": {n: v[n] for n in prods}}
+    world = {"root": "stack", "products": prods, "current": {n: v[n] for n in prods}, "generic": gen_generic(rng, prods)}
     ops = []
     for n in sorted(prods):
         r = rng.random()
@@ -386,7 +391,8 @@ def _parse_world(eups, e, products, world):
         for v in vs:
             p = e.findProduct(name, v, flavor=(setupsim.flavor_of(world, name) if v in world["products"][name] else FLAVOR))
             tbl = p.getTable()
-            acts = tbl.actions(FLAVOR, setupType=e.setupType) if tbl else []
+            # Eups.setup reads the table for the flavor the product was found under (setupFlavor), not the running one
+            acts = tbl.actions(p.flavor or FLAVOR, setupType=e.setupType) if tbl else []
             parsed["%s %s" % (name, v)] = {"dir": p.dir, "flavor": p.flavor, "actions": setupsim.model_actions(acts)}
     return parsed
 
@@ -1021,7 +1027,8 @@ def setup_ctx(ctx):
                 "dependency that cannot be set up, listed before a required sibling sharing a dependency that has its own); "
                 "one case in 8 from a second directed family (an optional link at depth 1, 2 or 3 below the top product "
                 "under which the setup of a product fails part-way, after it and its own dependencies were recorded, and is "
-                "rolled back); every table is expanded twice, by the Eups instance that did the setup and by a fresh one; "
+                "rolled back); in about one world in three some products are declared under the fall-back flavor generic; "
+                "every table is expanded twice, by the Eups instance that did the setup and by a fresh one; "
                 "productList overrides (12%) and --force "
                 "(10%); the database then gains newer versions and current moves; a case is non-trivial when the build "
                 "succeeded and set up at least two products; distinct = distinct (tables, top product, productList)")
@@ -1036,7 +1043,8 @@ def setup_ctx(ctx):
         "modelled, not verified: python re/str.split/strip on the stated line grammar; the version resolver "
         "(findProductFromVRO) enters only through those dependency lists and, in the replay, through the comparison of "
         "the real decisions with the explicit versions"]
-    ctx.assumptions = ["one stack, one flavor, declared products only (no setup -r / LOCAL: versions, no --external, no product "
+    ctx.assumptions = ["one stack; every product declared under the running flavor or (all its versions) under the fall-back flavor "
+                       "generic; declared products only (no setup -r / LOCAL: versions, no --external, no product "
                        "named eups, no pre-existing exact block in the input table)",
                        "expandVersions and addExactBlock at their defaults (True)"]
 
